@@ -51,7 +51,7 @@ Proof.
 Qed.
 
 (* ---------- declarations: Data::check / Codata::check ----------
-   Proof/CheckDecls.v check_type_decls_ok (all programs; since fix <commit15> the declaration types are checked
+   Proof/CheckDecls.v check_type_decls_ok (all programs; since fix eb42971 the declaration types are checked
    completely, so the lemma no longer needs the fragment) ---------- *)
 
 (* ---------- definitions ---------- *)
@@ -86,7 +86,7 @@ Section Defs.
       rewrite Hw, Hwr. splits; eauto using same_templates_trans, grows_trans.
   Qed.
 
-  (* def.rs, since fix <commit12>: the return type of `main` is compared with i64 *)
+  (* def.rs, since fix 5b8c76f: the return type of `main` is compared with i64 *)
   Lemma main_ret_check_mono_sound : forall d st st', mono_ty (fdret d) = true -> tables ts fs st -> minv st ->
     main_ret_check d st = COk st' -> main_ret_ok d = true /\ minv st' /\ same_templates st st' /\ grows st st'.
   Proof.
